@@ -9,7 +9,7 @@ use crate::sqlite::Db;
 use prqlc::sql::Dialect;
 use serde_json::{json, Value as J};
 
-pub const SIGMA: &[char] = &['a', '\'', '"', '\\', '\n', '\r', '\t', '-', '/', '*', '#', ';', '{', '}', '%', 'é', '🐢', '\u{1}'];
+pub const SIGMA: &[char] = &['a', ' ', '\'', '"', '\\', '\n', '\r', '\t', '-', '/', '*', '#', ';', '{', '}', '%', 'é', '🐢', '\u{1}'];
 
 fn esc_common(c: char, q: char, out: &mut String) {
     match c {
